@@ -14,3 +14,35 @@ pub use shuttle::thread::{spawn, JoinHandle};
 pub fn wait_flag(env: &Env, flag: usize) {
     world::wait_until(|_| env.flags[flag].load(SeqCst) != 0);
 }
+
+#[cfg(feature = "native")]
+pub use std::thread::{spawn, JoinHandle};
+
+/// Minimal executor for the native backend: poll, park until woken.
+#[cfg(feature = "native")]
+pub fn block_on<F: std::future::Future>(f: F) -> F::Output {
+    use std::sync::Arc;
+    use std::task::{Context, Poll, Wake, Waker};
+    struct ThreadWaker(std::thread::Thread);
+    impl Wake for ThreadWaker {
+        fn wake(self: Arc<Self>) {
+            self.0.unpark();
+        }
+        fn wake_by_ref(self: &Arc<Self>) {
+            self.0.unpark();
+        }
+    }
+    let waker = Waker::from(Arc::new(ThreadWaker(std::thread::current())));
+    let mut cx = Context::from_waker(&waker);
+    let mut f = std::pin::pin!(f);
+    let start = std::time::Instant::now();
+    loop {
+        if let Poll::Ready(v) = f.as_mut().poll(&mut cx) {
+            return v;
+        }
+        std::thread::park_timeout(std::time::Duration::from_millis(50));
+        if start.elapsed() > crate::verif_rt::world::WATCHDOG {
+            panic!("deadlock[await] an acknowledgement never completed (watchdog expired)");
+        }
+    }
+}
